@@ -4,6 +4,7 @@ CONSTANT NAxis = 23
 CONSTANT NTrans = 6
 CONSTANT NPerm = 3
 CONSTANT NShift = 3
+CONSTANT NIcode = 2
 CONSTANT MaxSteps = 5
 INVARIANT Deliverable
 CHECK_DEADLOCK FALSE
